@@ -5,7 +5,7 @@ from collections import defaultdict
 
 
 class Body:
-    __slots__ = ("j", "id", "name", "kind", "root", "blocks", "locals", "arg_count", "facts",
+    __slots__ = ("j", "id", "name", "kind", "root", "blocks", "locals", "arg_count", "facts", "_tupdefs",
                  "_succ", "_pred", "_dom", "_pdom", "_cd", "_div", "_reach_ret")
 
     def __init__(self, j, facts):
@@ -18,6 +18,7 @@ class Body:
         self.blocks = j["blocks"]
         self.locals = j["locals"]
         self.arg_count = j["arg_count"]
+        self._tupdefs = None
         self._succ = None
         self._pred = None
         self._dom = None
